@@ -13,9 +13,9 @@ for d in seeded/*/; do
   checks=$(/venv/bin/python -c "import json,sys; print(' '.join(json.load(open('$d/meta.json')).get('detected_by', [])))")
   [ -n "$checks" ] || continue
   git -C "$wt" checkout -q -- . ; cp "$d/demo.py" "$wt/_demo.py"
-  ( cd "$wt" && timeout 300 /venv/bin/python _demo.py >/dev/null 2>&1 ); c=$?
+  ( cd "$wt" && timeout 300 /venv/bin/python _demo.py >/dev/null 2>&1 ); dc=$?
   if ! git -C "$wt" apply "$PWD/$d/patch.diff" 2>/dev/null; then echo "$id: PATCH-DOES-NOT-APPLY"; bad=1; rm -f "$wt/_demo.py"; continue; fi
-  ( cd "$wt" && timeout 300 /venv/bin/python _demo.py >/dev/null 2>&1 ); m=$?
+  ( cd "$wt" && timeout 300 /venv/bin/python _demo.py >/dev/null 2>&1 ); dm=$?
   rm -f "$wt/_demo.py"; git -C "$wt" checkout -q -- .
   git -C /repo apply "$PWD/$d/patch.diff" || { echo "$id: cannot apply to /repo"; bad=1; continue; }
   res=""
@@ -23,7 +23,7 @@ for d in seeded/*/; do
     if timeout 1500 ./check "$c" --tier quick 2>/dev/null | grep -q "^VIOLATION property=$c"; then res="$res $c:caught"; else res="$res $c:MISSED"; bad=1; fi
   done
   git -C /repo checkout -q -- .
-  [ "$c" = 0 ] && [ "$m" != 0 ] || { res="$res demo(clean=$c,mutated=$m)!"; bad=1; }
+  [ "$dc" = 0 ] && [ "$dm" != 0 ] || { res="$res demo(clean=$dc,mutated=$dm)!"; bad=1; }
   echo "$id:$res"
 done
 for p in seeded/harmless/*.diff; do
